@@ -476,6 +476,42 @@ func (a *Analyzer) external0(fr *frame, site ssa.Instruction, name string, sig *
 			return one(&Slice{Base: nb, Off: Const(0), Len: s.Len.AddC(w)})
 		}
 	}
+	// sync/atomic typed integers as plain cells (client opt-in: value reasoning about a counter that one goroutine advances)
+	if a.AtomicCells && strings.HasPrefix(name, "(*sync/atomic.") && len(args) > 0 && sig.Recv() != nil {
+		if cell, et := a.atomicCell(args[0], sig.Recv().Type()); cell != nil {
+			m := name[strings.LastIndex(name, ".")+1:]
+			switch m {
+			case "Load":
+				return one(a.load(st, cell, et))
+			case "Store":
+				if len(args) == 2 {
+					a.store(st, cell, args[1], et)
+					return one(nil)
+				}
+			case "Swap":
+				if len(args) == 2 {
+					old := a.load(st, cell, et)
+					a.store(st, cell, args[1], et)
+					return one(old)
+				}
+			case "Add":
+				old, ok1 := a.load(st, cell, et).(Int)
+				d, ok2 := args[1].(Int)
+				if ok1 && ok2 {
+					var nv Int
+					if r := old.L.Add(d.L); a.fits(st, r, et) {
+						nv = Int{r}
+					} else {
+						nv = a.wrapAtom("add", et, fmt.Sprintf("(%s+%s)", old.L.String(), d.L.String()), old, d)
+					}
+					a.store(st, cell, nv, et)
+					return one(nv)
+				}
+			}
+			// anything else (CompareAndSwap, …): the cell holds an unknown value afterwards
+			a.store(st, cell, a.unknownOf(et, "atomic cell after "+m, st), et)
+		}
+	}
 	switch name {
 	case "(*sync.Pool).Get":
 		return one(&Unknown{ID: a.id(), Typ: sig.Results().At(0).Type(), Desc: "sync.Pool.Get", Pooled: true})
@@ -1002,4 +1038,26 @@ func (a *Analyzer) keepGhosts(callee, caller map[ssa.Value]Term) {
 			caller[g] = v
 		}
 	}
+}
+
+// atomicCell maps a pointer to a sync/atomic typed integer to the location of its value field.
+func (a *Analyzer) atomicCell(recv Term, recvT types.Type) (*Ptr, types.Type) {
+	p, ok := recv.(*Ptr)
+	if !ok || p.Obj == nil {
+		return nil, nil
+	}
+	cell, ct := a.FieldPtr(p, recvT, "v")
+	if cell == nil {
+		return nil, nil
+	}
+	et := ct.Underlying().(*types.Pointer).Elem()
+	if !isInteger(et) {
+		return nil, nil
+	}
+	return cell, et
+}
+
+// AtomicCell is the exported form for clients (entry set-up / reading the cell in a return state).
+func (a *Analyzer) AtomicCell(recv Term, recvT types.Type) (*Ptr, types.Type) {
+	return a.atomicCell(recv, recvT)
 }
